@@ -12,6 +12,9 @@ Import ListNotations.
 Ltac Zify.zify_post_hook ::= Z.div_mod_to_equations.
 Local Open Scope R_scope.
 
+(* rewrite with a fact after normalising the carrier T RN to R on both sides *)
+Ltac rw H := let X := fresh "X" in pose proof H as X; rn_simpl; rewrite X; clear X.
+
 Notation ringR := (@ring R unit).
 Notation obsR := (@obs R unit).
 
@@ -229,7 +232,7 @@ Theorem select_scalar_on_grid (s : ringR) off t k interp : wf s -> full s -> in_
 Proof.
   intros Hwf Hf Hr Hk. destruct (full_st s Hf) as (d & sh & Est). exists d, sh. split; [exact Est|].
   destruct (on_grid_k t k Hk) as (Eg & Er).
-  unfold select_scalar. rewrite Est, (in_range_ok _ _ Hr), Eg, Er. reflexivity.
+  unfold select_scalar. rn_simpl. rewrite Est, (in_range_ok _ _ Hr), Eg, Er. reflexivity.
 Qed.
 
 (* strictly between k*dt and (k+1)*dt: the interpolation of the older sample (off+k+1 steps back), the
@@ -242,7 +245,7 @@ Theorem select_scalar_off_grid (s : ringR) off t k interp : wf s -> full s -> in
 Proof.
   intros Hwf Hf Hr Hb. destruct (full_st s Hf) as (d & sh & Est). exists d, sh. split; [exact Est|].
   destruct (ceil_off_between t k off Hb) as (Ec & Efl).
-  unfold select_scalar. rewrite Est, (in_range_ok _ _ Hr), (between_off_grid t k Hb), Ec, Efl, (sample_at_between t k Hb).
+  unfold select_scalar. rn_simpl. rewrite Est, (in_range_ok _ _ Hr), (between_off_grid t k Hb), Ec, Efl, (sample_at_between t k Hb).
   reflexivity.
 Qed.
 
@@ -265,13 +268,22 @@ Theorem select_scalar_range (s : ringR) off t interp : full s ->
   (select_scalar RN s dt tol off t interp = Err EValue <-> (t < - tol \/ dt * IZR (Z.of_nat (N s) - 1) + tol < t)).
 Proof.
   intros Hf. destruct (full_st s Hf) as (d & sh & Est). rewrite <- out_of_range_iff.
-  unfold select_scalar. rewrite Est. destruct (out_of_range RN (N s) dt tol t); [tauto|].
+  unfold select_scalar. rn_simpl. rewrite Est. destruct (out_of_range RN (N s) dt tol t); [tauto|].
   split; [|discriminate]. destruct (on_grid RN dt tol t); discriminate.
 Qed.
 Theorem select_scalar_uninit (s : ringR) off t interp : ~ full s -> select_scalar RN s dt tol off t interp = Err ERuntime.
-Proof. unfold full, select_scalar. destruct (st s); intros H; try reflexivity. exfalso; apply H; exact I. Qed.
+Proof. unfold full, select_scalar. rn_simpl. destruct (st s); intros H; try reflexivity. exfalso; apply H; exact I. Qed.
 
 (* ------------------------------------------------------------------ select, tensor time *)
+Lemma existsb_in_range n (ts : list R) : Forall (in_range n) ts -> existsb (out_of_range RN n dt tol) ts = false.
+Proof.
+  intros Hr. apply not_true_is_false. intros E. apply existsb_exists in E. destruct E as (t & Hin & Ht).
+  rewrite Forall_forall in Hr. rewrite (in_range_ok _ _ (Hr t Hin)) in Ht. discriminate.
+Qed.
+Lemma ndim_ok (tnd : nat) (sh : list nat) : (tnd = length sh \/ tnd = S (length sh)) ->
+  (tnd =? length sh)%nat || (tnd =? S (length sh))%nat = true.
+Proof. intros [->| ->]; rewrite Nat.eqb_refl; auto using orb_true_r. Qed.
+
 Lemma sel_elem_on_grid (s : ringR) off interp e t k : Rabs (IZR k * dt - t) <= tol ->
   sel_elem RN s (rows s) dt tol off interp e t = nth e (at_ s (off + k)) 0.
 Proof.
@@ -313,19 +325,14 @@ Theorem select_tensor_scalar_agree (s : ringR) off tnd times interp d sh : wfS s
   select_tensor RN s dt tol off tnd times interp =
   if (tnd =? length sh)%nat then Ok s (OObs d sh (map (fun c => hd 0 c) cols)) else Ok s (ORng (mkRng d sh cols)).
 Proof.
-  intros Hwf Est Hnd Hr Hlen cols. unfold select_tensor. rewrite Est.
-  replace ((tnd =? length sh)%nat || (tnd =? S (length sh))%nat) with true
-    by (symmetry; destruct Hnd as [->| ->]; rewrite Nat.eqb_refl; auto using orb_true_r).
-  cbn [negb].
-  replace (existsb (out_of_range RN (N s) dt tol) (concat times)) with false.
-  2:{ symmetry. apply not_true_is_false. intros E. apply existsb_exists in E. destruct E as (t & Hin & Ht).
-      rewrite Forall_forall in Hr. rewrite (in_range_ok _ _ (Hr t Hin)) in Ht. discriminate. }
+  intros Hwf Est Hnd Hr Hlen cols. unfold select_tensor. rn_simpl. rewrite Est.
+  rewrite (ndim_ok _ _ Hnd). cbn [negb]. rw (existsb_in_range _ _ Hr).
   assert (Ecols : map (fun e => map (sel_elem RN s (rows s) dt tol off interp e) (nth e times [])) (seq 0 (nel sh)) = cols).
   { unfold cols. apply map_ext_in. intros e He. apply in_seq in He. apply map_ext_in. intros t Ht.
     apply (sel_elem_scalar s off interp e t d sh Hwf Est); [|lia].
     rewrite Forall_forall in Hr. apply Hr. apply in_concat. exists (nth e times []). split; [|exact Ht].
     apply nth_In. lia. }
-  rewrite Ecols. reflexivity.
+  rn_simpl. rewrite Ecols. reflexivity.
 Qed.
 
 (* tensor-time select, stated directly against the spec, one element and one time at a time *)
@@ -345,13 +352,8 @@ Proof.
   intros Hwf Est Hnd Hr.
   exists (map (fun e => map (sel_elem RN s (rows s) dt tol off interp e) (nth e times [])) (seq 0 (nel sh))).
   split; [|split].
-  - unfold select_tensor. rewrite Est.
-    replace ((tnd =? length sh)%nat || (tnd =? S (length sh))%nat) with true
-      by (symmetry; destruct Hnd as [->| ->]; rewrite Nat.eqb_refl; auto using orb_true_r).
-    cbn [negb].
-    replace (existsb (out_of_range RN (N s) dt tol) (concat times)) with false; [reflexivity|].
-    symmetry. apply not_true_is_false. intros E. apply existsb_exists in E. destruct E as (t & Hin & Ht).
-    rewrite Forall_forall in Hr. rewrite (in_range_ok _ _ (Hr t Hin)) in Ht. discriminate.
+  - unfold select_tensor. rn_simpl. rewrite Est.
+    rewrite (ndim_ok _ _ Hnd). cbn [negb]. rw (existsb_in_range _ _ Hr). reflexivity.
   - rewrite map_length, seq_length. reflexivity.
   - intros e j He Hj t. rewrite (l_nth_map_seq []) by exact He. split; [apply map_length|].
     rewrite (nth_indep _ 0 (sel_elem RN s (rows s) dt tol off interp e 0)) by (rewrite map_length; exact Hj).
@@ -365,13 +367,80 @@ Theorem select_tensor_range (s : ringR) off tnd times interp d sh : st s = SFull
   (select_tensor RN s dt tol off tnd times interp = Err EValue <->
    exists t, In t (concat times) /\ (t < - tol \/ dt * IZR (Z.of_nat (N s) - 1) + tol < t)).
 Proof.
-  intros Est Hnd. unfold select_tensor. rewrite Est.
-  replace ((tnd =? length sh)%nat || (tnd =? S (length sh))%nat) with true
-    by (symmetry; destruct Hnd as [->| ->]; rewrite Nat.eqb_refl; auto using orb_true_r).
-  cbn [negb]. destruct (existsb (out_of_range RN (N s) dt tol) (concat times)) eqn:E.
+  intros Est Hnd. unfold select_tensor. rn_simpl. rewrite Est.
+  rewrite (ndim_ok _ _ Hnd). cbn [negb]. match goal with |- context [if ?b then Err EValue else _] => destruct b eqn:E end.
   - split; [intros _|reflexivity]. apply existsb_exists in E. destruct E as (t & Hin & Ht).
     exists t. split; [exact Hin|]. apply out_of_range_iff; exact Ht.
   - split; [destruct (tnd =? length sh)%nat; discriminate|].
     intros (t & Hin & Ht). apply out_of_range_iff in Ht.
-    assert (X : existsb (out_of_range RN (N s) dt tol) (concat times) = true) by (apply existsb_exists; eauto). congruence.
+    assert (X : existsb (out_of_range RN (N s) dt tol) (concat times) = true) by (apply existsb_exists; eauto). rn_simpl. congruence.
 Qed.
+
+(* ------------------------------------------------------------------ helpers for insert *)
+Lemma map_castU d (l : list R) : map (castU RN d) l = l.
+Proof. induction l as [|a l IH]; cbn [map]; [reflexivity|]. rewrite IH. reflexivity. Qed.
+
+Lemma rows_length (s : ringR) : wf s -> full s -> length (rows s) = N s.
+Proof. intros (_ & _ & Hl) Hf. unfold full, rows in *. destruct (st s); try contradiction. exact Hl. Qed.
+
+(* every stored row is the observation some number of steps back *)
+Lemma rows_forall_at (s : ringR) (P : list R -> Prop) : wf s -> full s -> (forall j, P (at_ s j)) -> Forall P (rows s).
+Proof.
+  intros Hwf Hf H. pose proof (rows_length s Hwf Hf) as Hl. destruct Hwf as (Hn & Hp & _).
+  apply Forall_forall. intros r Hin. destruct (In_nth _ _ [] Hin) as (i & Hi & <-).
+  specialize (H (Z.of_nat (ptr s) - Z.of_nat i)%Z). unfold at_, idx, unwind, _unwind_ptr in H.
+  replace (Z.of_nat (ptr s) - (Z.of_nat (ptr s) - Z.of_nat i))%Z with (Z.of_nat i) in H by lia.
+  rewrite Z.mod_small in H by lia. rewrite Nat2Z.id in H. exact H.
+Qed.
+
+Lemma wfS_intro (s : ringR) d sh : wf s -> st s = SFull d sh (rows s) -> (forall j, length (at_ s j) = nel sh) -> wfS s.
+Proof.
+  intros Hwf Est H. split; [exact Hwf|]. rewrite Est.
+  apply rows_forall_at; [exact Hwf| |exact H]. unfold full. rewrite Est. exact I.
+Qed.
+
+Lemma hit_cases (s : ringR) off j : wf s -> (2 <= N s)%nat ->
+  (hit s off j = 0%nat <-> (j mod Z.of_nat (N s) = off mod Z.of_nat (N s))%Z) /\
+  (hit s off j = 1%nat <-> (j mod Z.of_nat (N s) = (off - 1) mod Z.of_nat (N s))%Z).
+Proof.
+  intros Hwf Hn. unfold hit. set (n := Z.of_nat (N s)). assert (Hn' : (2 <= n)%Z) by (unfold n; lia).
+  pose proof (Z.mod_pos_bound (off - j) n ltac:(lia)) as Hb.
+  split.
+  - rewrite <- (@mod_sub_cong R unit (castU RN) 0 off j off n) by lia.
+    replace (off - off)%Z with 0%Z by lia. rewrite Z.mod_0_l by lia. lia.
+  - rewrite <- (@mod_sub_cong R unit (castU RN) 0 off j (off - 1) n) by lia.
+    replace (off - (off - 1))%Z with 1%Z by lia. rewrite Z.mod_1_l by lia. lia.
+Qed.
+
+Lemma mod_succ_neq (a n : Z) : (2 <= n)%Z -> (a mod n <> (a + 1) mod n)%Z.
+Proof.
+  intros Hn E. pose proof (proj2 (@mod_sub_cong R unit (castU RN) 0 (a + 1) a (a + 1) n ltac:(lia)) E) as H.
+  replace (a + 1 - a)%Z with 1%Z in H by lia. replace (a + 1 - (a + 1))%Z with 0%Z in H by lia.
+  rewrite Z.mod_1_l, Z.mod_0_l in H by lia. lia.
+Qed.
+
+(* ------------------------------------------------------------------ insert, scalar time *)
+(* on the grid: the observation is written exactly onto slot off+k, nothing else changes;
+   in-place and out-of-place alike *)
+Theorem insert_scalar_on_grid (s : ringR) (o : obsR) off t k extrap inplace d sh :
+  wfS s -> st s = SFull d sh (rows s) -> shape_eqb (oshape o) sh = true -> length (oel o) = nel sh ->
+  in_range (N s) t -> Rabs (IZR k * dt - t) <= tol ->
+  exists s', insert_scalar RN s o dt tol off t extrap inplace = Ok s' OUnit /\
+    wfS s' /\ N s' = N s /\ ptr s' = ptr s /\ st s' = SFull d sh (rows s') /\
+    forall j, at_ s' j = if (j mod Z.of_nat (N s) =? (off + k) mod Z.of_nat (N s))%Z then oel o else at_ s j.
+Proof.
+  intros Hwf Est Hsh Hlen Hr Hk. assert (Hf : full s) by (unfold full; rewrite Est; exact I).
+  destruct (on_grid_k t k Hk) as (Eg & Er).
+  destruct (write_spec (castU RN) promU eqbU 0 s o (off + k) inplace (proj1 Hwf) Hf) as (d0 & sh0 & Est0 & Hw).
+  rn_simpl. rewrite Est in Est0. injection Est0 as <- <-. rewrite Hsh in Hw.
+  destruct Hw as (s' & Hw & HN & Hp & Est' & Hl' & Hat).
+  exists s'. split.
+  - unfold insert_scalar. rn_simpl. rewrite Est, Hsh. cbn [negb]. rw (in_range_ok _ _ Hr). rw Eg. rw Er. exact Hw.
+  - assert (Hat' : forall j, at_ s' j = if (j mod Z.of_nat (N s) =? (off + k) mod Z.of_nat (N s))%Z then oel o else at_ s j).
+    { intros j. rewrite Hat, map_castU. reflexivity. }
+    assert (Hwf' : wf s') by (eapply wf_write; [exact promU|exact eqbU|exact 0|exact (proj1 Hwf)|exact Hw]).
+    split; [|auto].
+    apply (wfS_intro s' d sh Hwf' Est'). intros j. rewrite Hat'.
+    destruct (_ =? _)%Z; [exact Hlen|apply (at_length s d sh); assumption].
+Qed.
+End Time.
